@@ -79,8 +79,8 @@ def decodeSpec (bs : Bytes) : Except V5Err Msg :=
   let h := valuesAt (widths Spec.v5Header) bs
   if fieldAt h 0 ≠ 5 then .error .badVersion else
   if fieldAt h 1 < 1 ∨ fieldAt h 1 > 30 then .error .badCount else
-  if bs.length < 24 + 48 * fieldAt h 1 then .ok ⟨h, [], some .shortFlows⟩ else
-  .ok ⟨h, flowsAt (widths Spec.v5Record) (fieldAt h 1) (bs.drop 24), none⟩
+  if bs.length < 24 + 48 * fieldAt h 1 then .error .shortFlows else
+  .ok ⟨h, flowsAt (widths Spec.v5Record) (fieldAt h 1) (bs.drop 24)⟩
 
 theorem decodeWith_spec_eq (bs : Bytes) : decodeWith Spec.v5Header Spec.v5Record bs = decodeSpec bs := by
   simp only [decodeWith, decodeSpec, readFields_eq, hdr_sum]
@@ -167,7 +167,7 @@ theorem flowsAt_encFlows (fs : List (List Nat)) (tail : Bytes) (h : ∀ f ∈ fs
 theorem decodeSpec_encode (h : List Nat) (fs : List (List Nat)) (tail : Bytes)
     (hh : Fits (widths Spec.v5Header) h) (hfs : ∀ f ∈ fs, Fits (widths Spec.v5Record) f)
     (hv : fieldAt h 0 = 5) (hc : fieldAt h 1 = fs.length) (h1 : 1 ≤ fs.length) (h30 : fs.length ≤ 30) :
-    decodeSpec (encodeV5 h fs ++ tail) = .ok ⟨h, fs, none⟩ := by
+    decodeSpec (encodeV5 h fs ++ tail) = .ok ⟨h, fs⟩ := by
   have hl := encFields_length _ _ hh
   rw [hdr_sum] at hl
   have hfl := encFlows_length fs hfs
